@@ -136,8 +136,9 @@ func SubscribeAddresses(ctx context.Context, ras []bitcoin.RawAddress,
 			return errors.Wrap(err, "address hashes")
 		}
 
-		for _, hash := range hashes {
-			pds = append(pds, hash[:])
+		for i := range hashes {
+			// slice the element, not the loop variable, which is one array reused for every hash
+			pds = append(pds, hashes[i][:])
 		}
 	}
 
@@ -153,8 +154,9 @@ func SubscribeAddress(ctx context.Context, ra bitcoin.RawAddress,
 	}
 
 	var pds [][]byte
-	for _, hash := range hashes {
-		pds = append(pds, hash[:])
+	for i := range hashes {
+		// slice the element, not the loop variable, which is one array reused for every hash
+		pds = append(pds, hashes[i][:])
 	}
 
 	return subscriber.SubscribePushDatas(ctx, pds)
